@@ -19,7 +19,8 @@ import (
 
 const repoMod = "github.com/xinchentechnote/fin-protoc"
 
-var repoRoot = "/repo"
+// repoRoot: the tree under verification (GOVERIF_REPO, default /repo).
+var repoRoot = envOr("GOVERIF_REPO", "/repo")
 
 func newEngine() *Engine {
 	cfg := &packages.Config{Mode: packages.LoadAllSyntax, Dir: repoRoot, BuildFlags: []string{"-tags=verif"}}
